@@ -970,7 +970,7 @@ def gen_case(rng, ideal):
                         h ^= rng.choice([1, 0x10])
                 else:
                     h, data = rng.choice(hdrs), [rng.randrange(256) for _ in range(rng.randint(0, 3))]
-                do(['recv', h, data])
+                do(['recv', h, data] + ([rng.randrange(4)] if rng.random() < 0.5 else []))
             elif x < 0.9:
                 do(['advfire' if ideal else 'adv', rng.choice([10, 50, 100, 150, 200, 400, 1000])])
             elif x < 0.92:
@@ -1067,7 +1067,7 @@ def _nontrivial(case, res):
 
 
 def tie(ctx):
-    cases = corpus_cases() + first_packet_cases() + callback_cases() + close_step_cases()
+    cases = corpus_cases() + reserved_bits_cases() + first_packet_cases() + callback_cases() + close_step_cases()
     for _ in range(ctx.scale(40, 800)):
         cases.append(dict(gen_case(ctx.rng, ideal=ctx.rng.random() < 0.4), fresh=True))
     for _ in range(ctx.scale(1000, 20000)):
@@ -1237,7 +1237,7 @@ def judge(case, events, res):
         k = e[0]
         if k == 'send' and len(e) > 6 and not cb_ok:
             continue                    # no link: the packet never arrived, its handler did not run
-        if k == 'recv' and len(e) > 3:
+        if k == 'recv' and e[-1] == 'cb':
             cb_ok = link
         if k == 'send':
             _, rid, hdr, data, exp, tmo = e[:6]
@@ -1408,6 +1408,23 @@ def close_step_cases():
     return out
 
 
+def reserved_bits_cases():
+    """Replies built as the drivers build them, CRTPPacket(raw_header, payload), with each value of the two reserved header
+    bits on the wire (the firmware sends them cleared; the library's own packets have them set): the reply cancels the request
+    whatever these bits are."""
+    out = []
+    for rb in range(4):
+        for hdr in (0x91, 0x12, 0xB3):
+            for tmo in (None, 50):
+                T = 200 if tmo is None else tmo
+                out.append({'events': [['open', True], ['send', 0, hdr, [5], [7], tmo], ['advfire', T // 2], ['recv', hdr, [7, 1], rb],
+                                       ['advfire', 3 * T + 10]], 'ideal': True})
+        out.append({'events': [['open', True], ['send', 0, 0x91, [5], [7], 100], ['send', 1, 0x91, [6], [7, 8], 100], ['advfire', 100],
+                               ['recvcb', 0x91, [7, 8, 3], [[2, 0x91, [9], [7, 8], 100]], rb], ['advfire', 150],
+                               ['recv', 0x91, [7], rb], ['advfire', 250]], 'ideal': True})
+    return out
+
+
 def first_packet_cases():
     """The answer to a pending request is the FIRST packet received in a session — of a brand-new Crazyflie object (first
     session: callback order of __init__) and of a used one, in the first and in a second session; the answer comes once."""
@@ -1482,7 +1499,7 @@ def oracle(ctx, deep=False):
         if f and f['class'] not in {x['class'] for x in fails}:
             # shortest failing history first (enumeration is by length): no further shrinking needed
             fails.append(f)
-    cases = corpus_cases() + first_packet_cases() + callback_cases() + close_step_cases() + list(enum_cases(ctx.scale(3, 5)))
+    cases = corpus_cases() + reserved_bits_cases() + first_packet_cases() + callback_cases() + close_step_cases() + list(enum_cases(ctx.scale(3, 5)))
     for _ in range(ctx.scale(60, 1200)):
         cases.append(dict(gen_case(ctx.rng, ideal=ctx.rng.random() < 0.6), fresh=True))
     for _ in range(ctx.scale(4000, 80000) * (3 if deep else 1)):
